@@ -260,6 +260,66 @@ def passesUntyped (v : Sc) (t : Ty) : Bool :=
    | .instance _ | .cimClass => t == .char16
    | _ => true)
 
+/-! ## the parse side of numeric CIM-XML values: pywbem/_tupleparse.py unpack_numeric -/
+
+/-- str.isspace() (what str.strip() removes) -/
+def isStrSpace (c : Char) : Bool :=
+  let n := c.toNat
+  (9 ≤ n && n ≤ 13) || (28 ≤ n && n ≤ 32) || n == 0x85 || n == 0xA0 || n == 0x1680 ||
+  (0x2000 ≤ n && n ≤ 0x200A) || n == 0x2028 || n == 0x2029 || n == 0x202F || n == 0x205F || n == 0x3000
+
+/-- str.strip() -/
+def pyStrip (s : List Char) : List Char :=
+  ((s.dropWhile isStrSpace).reverse.dropWhile isStrSpace).reverse
+
+def isHexDigit (c : Char) : Bool :=
+  ('0' ≤ c && c ≤ '9') || ('a' ≤ c && c ≤ 'f') || ('A' ≤ c && c ≤ 'F')
+
+/-- CIMXML_HEX_PATTERN = ^(\+|\-)?0[xX][0-9a-fA-F]+$  (on stripped data; `$` also matches before one final newline,
+    which strip() has removed) -/
+def isHexPattern (s : List Char) : Bool := hexCore (hexBody s)
+where
+  hexBody : List Char → List Char
+    | '+' :: r => r
+    | '-' :: r => r
+    | r => r
+  hexCore : List Char → Bool
+    | '0' :: x :: ds => (x == 'x' || x == 'X') && !ds.isEmpty && ds.all isHexDigit
+    | _ => false
+
+/-- the numeric CIM types unpack_numeric is called for -/
+inductive NumTy where
+  | int (t : IntTy) | real32 | real64
+  deriving Repr, DecidableEq
+
+/-- mirrors _tupleparse.py: TupleParser.unpack_numeric(data, cimtype) for a numeric cimtype.
+    `pf` = Python float(stripped data) as bits (none = ValueError), the RealCodec parameter. -/
+def unpackNumeric (pf : Option Nat) (data : List Char) (t : NumTy) : Except PyExc Sc :=
+  let d := pyStrip data
+  -- the Python number: int (left) or float bits (right)
+  let value : Except PyExc (Sum Int Nat) :=
+    if isHexPattern d then (intOfStr d 16).map Sum.inl
+    else match intOfStr d 10 with
+      | .ok v => .ok (Sum.inl v)
+      | .error _ =>
+        match pf with
+        | some b => .ok (Sum.inr b)
+        | none => .error .cimXmlParseError
+  match value with
+  | .error e => .error e
+  | .ok v =>
+    -- CIMType(value); `except ValueError` → CIMXMLParseError; anything else escapes
+    let r : Except PyExc Sc := match t, v with
+      | .int ty, .inl n => (mkIntCfg ty { pos := [.int n] }).map (fun c => Sc.cimInt c.ty c.val)
+      | .int ty, .inr b => (mkIntCfg ty { pos := [.float b] }).map (fun c => Sc.cimInt c.ty c.val)
+      | .real32, .inl n => (intToF64 n).map Sc.real32
+      | .real32, .inr b => .ok (Sc.real32 b)
+      | .real64, .inl n => (intToF64 n).map Sc.real64
+      | .real64, .inr b => .ok (Sc.real64 b)
+    match r with
+    | .error .valueError => .error .cimXmlParseError
+    | r => r
+
 /-- class invariant of the CIMInt objects offered as *input* (they came out of the constructor, see
     `C06_int_in_range`): the value is within the limits of the class -/
 def scInv : Sc → Bool
